@@ -621,6 +621,15 @@ func (fg *FGraph) SolveFacts(vi *varInfo) {
 			switch t := x.(type) {
 			case *ast.CallExpr:
 				if f := calleeFunc(fg.Info, t); f != nil && f.Pkg() != nil && !pureStdlib(f.FullName()) && !writesNothing(f, 0) {
+					if curCtx != nil && curCtx.IsRarePkg(f.Pkg()) {
+						// a repository callee: kill exactly the facts about the fields it may store to
+						if fw := fieldsWrittenBy(f, 0); !fw.unknown {
+							for v := range fw.fields {
+								m[v] = true
+							}
+							return true
+						}
+					}
 					pk[f.Pkg()] = true
 				}
 			case *ast.AssignStmt:
@@ -1132,6 +1141,98 @@ func (fg *FGraph) FactsAtPos(pos token.Pos) []Fact {
 // curCtx is the configuration being analysed (set by Load); used to look up
 // callee bodies for the purity test below.
 var curCtx *Ctx
+var fieldsWrittenCache = map[*types.Func]*fieldWrites{}
+
+type fieldWrites struct {
+	fields  map[*types.Var]bool
+	unknown bool
+}
+
+// fieldsWrittenBy: the struct fields a repository function may store to
+// (directly or through repository callees). unknown is set when it stores
+// through a pointer, assigns package-level variables, starts goroutines, or
+// calls code this summary cannot see into (other than pure library functions
+// and calls through function values / interfaces, which are assumed not to
+// re-enter the object - the same assumption the fact transfer makes).
+func fieldsWrittenBy(f *types.Func, depth int) *fieldWrites {
+	out := &fieldWrites{fields: map[*types.Var]bool{}}
+	if curCtx == nil || depth > 4 {
+		out.unknown = true
+		return out
+	}
+	f = f.Origin()
+	if v, ok := fieldsWrittenCache[f]; ok {
+		if v == nil { // recursion
+			out.unknown = true
+			return out
+		}
+		return v
+	}
+	fieldsWrittenCache[f] = nil
+	fi := funcDeclOf(curCtx, f)
+	if fi == nil {
+		out.unknown = true
+		fieldsWrittenCache[f] = out
+		return out
+	}
+	info := fi.Pkg.TypesInfo
+	lhs := func(e ast.Expr) {
+		e = ast.Unparen(e)
+		switch t := e.(type) {
+		case *ast.Ident:
+			if o, isVar := info.Uses[t].(*types.Var); isVar && o.Pkg() != nil && o.Parent() == o.Pkg().Scope() {
+				out.unknown = true
+			}
+		case *ast.SelectorExpr:
+			if v := fieldVar(info, t); v != nil {
+				out.fields[v] = true
+			} else {
+				out.unknown = true
+			}
+		case *ast.IndexExpr:
+			// element store: lengths and bindings of fields are unchanged
+		case *ast.StarExpr:
+			out.unknown = true
+		default:
+			out.unknown = true
+		}
+	}
+	ast.Inspect(fi.Decl.Body, func(n ast.Node) bool {
+		switch t := n.(type) {
+		case *ast.AssignStmt:
+			for _, l := range t.Lhs {
+				lhs(l)
+			}
+		case *ast.IncDecStmt:
+			lhs(t.X)
+		case *ast.GoStmt:
+			out.unknown = true
+		case *ast.CallExpr:
+			if isConversion(info, t) {
+				return true
+			}
+			name := calleeName(info, t)
+			if strings.HasPrefix(name, "builtin.") || pureStdlib(name) {
+				return true
+			}
+			if g := calleeFunc(info, t); g != nil && curCtx.IsRarePkg(g.Pkg()) {
+				sub := fieldsWrittenBy(g, depth+1)
+				if sub.unknown {
+					out.unknown = true
+				}
+				for v := range sub.fields {
+					out.fields[v] = true
+				}
+			}
+			// other callees (library code, function values): cannot name unexported fields of this
+			// package; exported fields are handled by the caller of this summary
+		}
+		return true
+	})
+	fieldsWrittenCache[f] = out
+	return out
+}
+
 var writesNothingCache = map[*types.Func]int{}
 
 // writesNothing: the function (of the repository) stores to nothing but its
